@@ -280,12 +280,12 @@ public:
             p(std::forward<Args>(args)...);
             return future<void>::set_value();
         } else {
-            this->_queue.emplace(std::forward<Args>(args)...);
             if (this->_queue.size() >= _limit) {
                 return [&](auto promise) {
                     _blocked.push({T(std::forward<Args>(args)...),std::move(promise)});
                 };
             } else {
+                this->_queue.emplace(std::forward<Args>(args)...);
                 return future<void>::set_value();
             }
         }
